@@ -27,6 +27,7 @@ func checkC13(c *Ctx) {
 	c.ackUpdatesOwnSlot()
 	c.headOnlyRelease()
 	c.growRules()
+	c.queueRelayoutInBounds()
 	c.occupancyByCount()
 	// the private copies are sized with msg.Len(): header length thresholds and Len ordering
 	c.typeTables()
